@@ -646,3 +646,45 @@ func (g *Gen) HistoryRetype() []E {
 	}
 	return evs
 }
+
+
+// ---------------------------------------------------------------- _expiresAt is only data (C15)
+
+// HistoryExpiry: documents whose _expiresAt lies in the past, a moment ahead of the wall clock, far
+// in the future, or is absent, in an indexed collection; the wall clock then passes the near one and
+// the collection is read and rewritten through the index.  clover keeps such documents (expiry is
+// not implemented), so every backend must keep them, and their index entries, too.
+func (g *Gen) HistoryExpiry() []E {
+	c := g.colls[0]
+	soon := g.U.soonOrd
+	evs := []E{{"op": "CreateCollection", "c": c}}
+	if g.chance(0.7) {
+		evs = append(evs, E{"op": "CreateIndex", "c": c, "f": B("x")})
+	}
+	var docs []interface{}
+	for i, ord := range []int{soon, 0, soon + 1, -1, soon} {
+		d := AObj("_id", AStr(g.ids[i]), "x", ANum(g.smallN[1+i%3], "i"))
+		if ord >= 0 {
+			d = ObjSet(d, "_expiresAt", ATime(ord, g.r.Intn(genZones)))
+		}
+		docs = append(docs, d)
+	}
+	evs = append(evs, E{"op": "Insert", "c": c, "docs": docs[:4]})
+	evs = append(evs, E{"op": "CreateIndex", "c": c, "f": B("_expiresAt")})
+	evs = append(evs, E{"op": "InsertOne", "c": c, "docs": docs[4:]})
+	if g.chance(0.5) {
+		evs = append(evs, E{"op": "UpdateById", "c": c, "id": B(g.ids[0]), "upd": []interface{}{"set", B("x"), ANum(g.smallN[2], "i")}})
+	}
+	where := func(op string, v V) []interface{} {
+		return []interface{}{"where", []interface{}{"un", op, B("x"), []interface{}{"lit", v}}}
+	}
+	sortX := []interface{}{"sort", []interface{}{[]interface{}{B("x"), -1}, []interface{}{B("_id"), 1}}}
+	evs = append(evs, E{"op": "FindAll", "c": c, "q": []interface{}{where("gte", ANum(g.smallN[0], "i"))}, "pause": 2200, "audit": true})
+	evs = append(evs, E{"op": "Count", "c": c, "q": []interface{}{where("eq", ANum(g.smallN[1], "i"))}})
+	evs = append(evs, E{"op": "FindAll", "c": c, "q": []interface{}{sortX}})
+	evs = append(evs, E{"op": "FindAll", "c": c, "q": []interface{}{[]interface{}{"sort", []interface{}{[]interface{}{B("_expiresAt"), 1}, []interface{}{B("_id"), 1}}}}})
+	evs = append(evs, E{"op": "Derived", "c": c, "q": []interface{}{where("gt", ANum(g.smallN[0], "i")), sortX}, "js": []interface{}{0, 1}, "ids": []interface{}{B(g.ids[0]), B(g.ids[4])}})
+	evs = append(evs, E{"op": "Delete", "c": c, "q": []interface{}{where("gt", ANum(g.smallN[1], "i"))}, "audit": true})
+	evs = append(evs, E{"op": "Count", "c": c, "q": []interface{}{}, "audit": true})
+	return evs
+}
